@@ -5,6 +5,7 @@ package main
 
 import (
 	"fmt"
+	"go/constant"
 	"go/types"
 	"sort"
 	"strings"
@@ -16,6 +17,29 @@ const modulePath = "github.com/github/git-sizer"
 
 func inModule(p *types.Package) bool {
 	return p != nil && strings.HasPrefix(p.Path(), modulePath)
+}
+
+// calleeMatches: pattern is a substring of the callee name, optionally
+// followed by ("literal"): then some argument must be that string constant.
+func calleeMatches(cc *ssa.CallCommon, pattern string) bool {
+	name := calleeName(cc)
+	lit := ""
+	if k := strings.Index(pattern, "(\""); k >= 0 && strings.HasSuffix(pattern, "\")") {
+		lit = pattern[k+2 : len(pattern)-2]
+		pattern = pattern[:k]
+	}
+	if !strings.Contains(name, pattern) {
+		return false
+	}
+	if lit == "" {
+		return true
+	}
+	for _, a := range cc.Args {
+		if k, ok := a.(*ssa.Const); ok && k.Value != nil && isString(k.Type()) && constant.StringVal(k.Value) == lit {
+			return true
+		}
+	}
+	return false
 }
 
 // pure externals: result depends only on the arguments, memory unchanged.
@@ -322,10 +346,25 @@ func (ex *Exec) call(in *ssa.Call, cc *ssa.CallCommon, r Term) {
 			v.Typ = in.Type()
 			ex.vals[in] = v
 		}
+		for _, ca := range ex.pendingAssume {
+			env := ex.baseEnv(ex.cur)
+			ex.bindDominating(env, in)
+			for k, nv := range ex.named {
+				if _, clash := env.vars[k]; !clash {
+					env.vars[k] = nv
+				}
+			}
+			t, err := env.Bool(ca.C.E)
+			if err != nil {
+				unsup("call %d %s assume: %v", ca.Ordinal, ca.Callee, err)
+			}
+			ex.c.assume(imp(r, t))
+			ex.c.trusted[ca.Trust+": assumed after the call to "+ca.Callee+" in "+ex.fname+": "+ca.C.Text] = true
+		}
+		ex.pendingAssume = nil
 		if ex == ex.top && ex.fc != nil && len(ex.fc.CallNames) > 0 {
-			name := calleeName(cc)
 			for _, cn := range ex.fc.CallNames {
-				if !strings.Contains(name, cn.Callee) {
+				if !calleeMatches(cc, cn.Callee) {
 					continue
 				}
 				key := "callname:" + cn.Callee
@@ -344,7 +383,7 @@ func (ex *Exec) call(in *ssa.Call, cc *ssa.CallCommon, r Term) {
 			}
 			seenC := map[string]bool{}
 			for _, cn := range ex.fc.CallNames {
-				if strings.Contains(name, cn.Callee) && !seenC[cn.Callee] {
+				if calleeMatches(cc, cn.Callee) && !seenC[cn.Callee] {
 					seenC[cn.Callee] = true
 					ex.count["callname:"+cn.Callee]++
 				}
@@ -373,14 +412,17 @@ func (ex *Exec) call(in *ssa.Call, cc *ssa.CallCommon, r Term) {
 	}
 	ex.bumpGhosts(calleeName(cc))
 	if ex == ex.top && ex.fc != nil && len(ex.fc.CallAsserts) > 0 {
-		name := calleeName(cc)
 		seenA := map[string]bool{}
-		for _, ca := range ex.fc.CallAsserts {
-			if !strings.Contains(name, ca.Callee) {
+		for ci, ca := range ex.fc.CallAsserts {
+			if !calleeMatches(cc, ca.Callee) {
 				continue
 			}
 			key := "callassert:" + ca.Callee
-			if ex.count[key] == ca.Ordinal {
+			if ex.count[key] == ca.Ordinal && ca.Assume {
+				ca := ca
+				ex.pendingAssume = append(ex.pendingAssume, &ca)
+				ex.assertSeen[fmt.Sprintf("%d %s", ca.Ordinal, ca.Callee)] = true
+			} else if ex.count[key] == ca.Ordinal {
 				env := ex.baseEnv(ex.cur)
 				ex.bindDominating(env, in)
 				for k, nv := range ex.named {
@@ -395,9 +437,17 @@ func (ex *Exec) call(in *ssa.Call, cc *ssa.CallCommon, r Term) {
 				}
 				t, err := env.Goal(ca.C.E)
 				if err != nil {
-					unsup("call %d %s assert: %v", ca.Ordinal, ca.Callee, err)
+					if !strings.Contains(err.Error(), "unknown identifier") {
+						unsup("call %d %s assert: %v", ca.Ordinal, ca.Callee, err)
+					}
+					// it speaks about a call that does not exist (any more)
+					t = "false"
 				}
-				ex.addObl("assert", ca.C.Label, r, t, pos, ca.C.Text, false)
+				lbl := ca.C.Label
+				if lbl == "" {
+					lbl = fmt.Sprintf("c%d", ci)
+				}
+				ex.addObl("assert", lbl, r, t, pos, ca.C.Text, false)
 				if at, err := env.Bool(ca.C.E); err == nil {
 					ex.c.assume(imp(r, at))
 				}
